@@ -353,8 +353,26 @@ def resolve_field(view, path):
 # ---------------------------------------------------------------------------
 
 def driver_extra(module, targets):
-    L = ["template <class F> static void do_write(F f, const std::string &val) {",
+    L = ["static bool g_narrow = false;",
+         "template <class T, class F> static void write_as(F f, long long x, bool &could, bool &ok) { could = f.CouldWriteValue(static_cast<T>(x)); ok = f.TryToWrite(static_cast<T>(x)); }",
+         "// the same value passed as the narrowest standard integer type that holds it (signed for negative",
+         "// values, alternately signed and unsigned otherwise): the write methods of integer views are templates",
+         "template <class F> static typename std::enable_if<std::is_integral<decltype(std::declval<F>().UncheckedRead())>::value && !std::is_same<decltype(std::declval<F>().UncheckedRead()), bool>::value, bool>::type",
+         "do_write_narrow(F f, const std::string &val) {",
+         "  bool could = false, ok = false;",
+         "  if (!val.empty() && val[0] == '-') { long long x = std::stoll(val);",
+         "    if (x >= -128) write_as<std::int8_t>(f, x, could, ok); else if (x >= -32768) write_as<std::int16_t>(f, x, could, ok); else if (x >= -2147483648LL) write_as<std::int32_t>(f, x, could, ok); else write_as<std::int64_t>(f, x, could, ok);",
+         "  } else { unsigned long long u = std::stoull(val); long long x = static_cast<long long>(u); bool sg = (u % 2) == 0;",
+         "    if (u <= 127 && sg) write_as<std::int8_t>(f, x, could, ok); else if (u <= 255) write_as<std::uint8_t>(f, x, could, ok);",
+         "    else if (u <= 32767 && sg) write_as<std::int16_t>(f, x, could, ok); else if (u <= 65535) write_as<std::uint16_t>(f, x, could, ok);",
+         "    else if (u <= 2147483647ULL && sg) write_as<std::int32_t>(f, x, could, ok); else if (u <= 4294967295ULL) write_as<std::uint32_t>(f, x, could, ok);",
+         "    else if (u <= 9223372036854775807ULL && sg) write_as<std::int64_t>(f, x, could, ok); else { could = f.CouldWriteValue(u); ok = f.TryToWrite(u); } }",
+         "  P(\"could\", could); P(\"ok\", ok); return true; }",
+         "template <class F> static typename std::enable_if<!(std::is_integral<decltype(std::declval<F>().UncheckedRead())>::value && !std::is_same<decltype(std::declval<F>().UncheckedRead()), bool>::value), bool>::type",
+         "do_write_narrow(F, const std::string &) { return false; }",
+         "template <class F> static void do_write(F f, const std::string &val) {",
          "  typedef decltype(f.UncheckedRead()) VT;",
+         "  if (g_narrow && do_write_narrow(f, val)) return;",
          "  bool neg = !val.empty() && val[0] == '-';",
          "  bool could, ok;",
          "  if (neg) { long long x = std::stoll(val); could = f.CouldWriteValue(conv<VT>(x)); ok = f.TryToWrite(conv<VT>(x)); }",
@@ -436,8 +454,8 @@ template <int AL> static void run_writes(const std::vector<std::string> &tok) {
 """
 
 MAIN_EXTRA = r"""
-    g_text = tok[0] == "WT";
-    if (tok[0] == "W" || tok[0] == "WT") run_writes<0>(tok);
+    g_text = tok[0] == "WT"; g_narrow = tok[0] == "WN";
+    if (tok[0] == "W" || tok[0] == "WT" || tok[0] == "WN") run_writes<0>(tok);
     if (tok[0] == "X2") run_writes<2>(tok);
     if (tok[0] == "X4") run_writes<4>(tok);
     if (tok[0] == "X8") run_writes<8>(tok);
@@ -468,6 +486,8 @@ def build_case(case_seed, nbuf, seq_p):
     total = foo.total
     # targets the text route is used for: integers, whose text form is a plain number
     text_targets = [i for i, (p, d) in enumerate(targets) if d["virtual"] or d["kind"] in ("UInt", "Int", "Bcd")]
+    # targets whose write methods are templates over the argument's integer type
+    int_targets = [i for i, (p, d) in enumerate(targets) if not d["virtual"] and d["kind"] in ("UInt", "Int")]
     for _ in range(nbuf):
         n = total if rnd.random() < 0.75 else rnd.randrange(0, total + 1)
         buf = bytes(rnd.choice([0, 0xFF, 0x55, rnd.randrange(256), rnd.randrange(256)]) for _ in range(n))
@@ -476,8 +496,9 @@ def build_case(case_seed, nbuf, seq_p):
         cur = buf
         exp_steps = []
         as_text = bool(text_targets) and rnd.random() < 0.25
+        as_narrow = not as_text and bool(int_targets) and rnd.random() < 0.25
         for _s in range(steps):
-            ti = rnd.choice(text_targets) if as_text else rnd.randrange(len(targets))
+            ti = rnd.choice(text_targets) if as_text else (rnd.choice(int_targets) if as_narrow else rnd.randrange(len(targets)))
             path, desc = targets[ti]
             v = rnd.choice(candidate_values(rnd, desc, text=as_text))
             res = ref_write(I, foo, cur, path, v)
@@ -488,7 +509,10 @@ def build_case(case_seed, nbuf, seq_p):
             exp_steps.append(res)
             cur = res["buf"]
             seq.append((ti, v))
-        cmd = "WT" if as_text else rnd.choice(["W", "W", "W", "X2", "X4", "X8"])
+        cmd = "WT" if as_text else ("WN" if as_narrow else rnd.choice(["W", "W", "W", "X2", "X4", "X8"]))
+        if as_narrow:
+            for res in exp_steps:
+                res["narrow"] = True
         if as_text:
             for res in exp_steps:
                 res["text"] = True
@@ -538,7 +562,7 @@ def compare(case, outputs, stats):
             missing = w["could"] and not w["ok"]
             nt = (w["ok"] and changed) or (boundary and not w["could"]) or missing
             fc = field_class(d, None) + ("-enum-signed" if d["signed_enum"] else "")
-            stats.case([case["text"], w["target"], w["before"].hex(), w["value"]], nt, ["target:" + field_class(d, None), "route:text" if w.get("text") else "route:call", "accepted" if w["ok"] else ("refused-range" if not w["could"] else "refused-bytes"), "seq>1" if len(steps_want) > 1 else "single"], sample={"target": w["target"], "kind": d["kind"], "bits": d["bits"], "before": w["before"].hex(), "value": w["value"], "could": w["could"], "ok": w["ok"], "after": w["buf"].hex()})
+            stats.case([case["text"], w["target"], w["before"].hex(), w["value"]], nt, ["target:" + field_class(d, None), "route:text" if w.get("text") else ("route:call-narrow-argument-type" if w.get("narrow") else "route:call"), "accepted" if w["ok"] else ("refused-range" if not w["could"] else "refused-bytes"), "seq>1" if len(steps_want) > 1 else "single"], sample={"target": w["target"], "kind": d["kind"], "bits": d["bits"], "before": w["before"].hex(), "value": w["value"], "could": w["could"], "ok": w["ok"], "after": w["buf"].hex()})
             obs = {"could": "1" if w["could"] else "0", "ok": "1" if w["ok"] else "0", "buf": w["buf"].hex() or "-"}
             if w["ok"]:
                 obs["read"] = RI.fmt_value(None, w["read"]) if w["read"] is not None else None
